@@ -133,6 +133,7 @@ def c18(A, ctx, tier):
     warm.r_cache(A, ctx, {})
     storage.r_solverstate(A, ctx, dict(floor=25))
     warm.r_path(A, ctx, dict(floor=8), rule="R-PATH-PURE")
+    warm.r_warmfit(A, ctx, dict(floor=5), rule="R-WARMFIT-STATE")
     misc.r_initialize(A, ctx, dict(floor=6))
     ctx.note("spectral_norm draws its start vector from Numba's process-wide generator "
              "(np.random.randn inside an njit function): sparse global Lipschitz constants "
